@@ -211,7 +211,9 @@ fn run<A: Alphabet>(case: &Case, tier_limit: usize, info: &mut CaseInfo) -> Opti
         if let Some(t) = &tail {
             let lo = t.ge(s as f64 + d + 1e-9);
             let hi = t.ge(s as f64 - d - 1e-9);
-            let tau = |v: f64| 1e-9 * v + 1e-12 + mass_excess.max(0.0);
+            // relative, so that tails of 1e-20 are held to the same standard as tails of 0.1 (the only absolute
+            // term is the excess of an f32 background's total mass over one, which the table clips away)
+            let tau = |v: f64| 1e-9 * v + mass_excess.max(0.0);
             if p < lo - tau(lo) {
                 return Some(Failure::new(
                     "pvalue:below-exact-tail",
